@@ -10,7 +10,7 @@ had raised it.
 
 Not armed (Appendix E): a fault there is a fault in the closing code itself --
 
-* whole code objects named in ``excluded_code`` (default: ``Resource.__enter__``
+* whole code objects named in ``excluded_code`` (default ``Resource.__enter__``
   ``Resource.__exit__`` ``Resource.close`` of ``loader.py``);
 * the header lines of every ``with`` statement (they are re-visited when the
   block is left, which is where ``__exit__`` is called);
@@ -148,14 +148,18 @@ class Domain:
 class Shot:
     """State of one monitored call."""
 
-    __slots__ = ("target", "exc_class", "count", "fired", "trace")
+    __slots__ = ("target", "exc_class", "count", "fired", "trace",
+                 "code", "line")
 
-    def __init__(self, target, exc_class, trace):
+    def __init__(self, target, exc_class, trace, code=None, line=None):
         self.target = target          # 0 = counting only
         self.exc_class = exc_class
-        self.count = 0
+        self.count = 0                # events seen (global mode) or visits
+        #                               of the target location (local mode)
         self.fired = None             # (relative file, qualname, line)
-        self.trace = [] if trace else None
+        self.trace = [] if trace else None    # [(code, line), ...]
+        self.code = code              # local mode: the only code object
+        self.line = line              # whose LINE events are switched on
 
 
 class _Armed:
@@ -176,8 +180,17 @@ class Session:
     """Owns a tool id for a series of counting / armed calls.
 
     >>> with Session(pkgdir) as fp:
-    ...     with fp.counting() as shot: call()      # shot.count events
+    ...     with fp.counting(trace=True) as shot: call()   # shot.count events
     ...     with fp.armed(17, InjectedFault) as shot: call()   # raises at #17
+    ...     code, line = trace[16]; k = visits of (code, line) in trace[:17]
+    ...     with fp.armed_at(code, line, k, InjectedFault) as shot: call()
+
+    ``armed`` counts every failpoint of the call in a Python callback (about
+    6x slowdown of the monitored code).  ``armed_at`` realises the same
+    failpoint -- "the n-th LINE event" = "the k-th visit of location L", L and
+    k read off the counting pass's trace -- by switching LINE events on for
+    the one code object that contains L only, so the rest of the call runs at
+    full speed.  Both raise inside the monitored frame.
     """
 
     PREFERRED_IDS = (4, 3, 2, 1, 0, 5)
@@ -215,10 +228,12 @@ class Session:
     def _release(self):
         mon = sys.monitoring
         tid, self.tool = self.tool, None
-        self._shot = None
+        shot, self._shot = self._shot, None
         if tid is None:
             return
         try:
+            if shot is not None and shot.code is not None:
+                mon.set_local_events(tid, shot.code, 0)
             mon.set_events(tid, 0)
             mon.register_callback(tid, mon.events.LINE, None)
         finally:
@@ -233,34 +248,69 @@ class Session:
             raise ValueError("failpoints are numbered from 1")
         return _Armed(self, Shot(n, exc_class, trace))
 
+    def armed_at(self, code, line, k, exc_class):
+        """Raise at the k-th visit (k >= 1) of *line* of *code*."""
+        if k < 1:
+            raise ValueError("visits are numbered from 1")
+        if self.excluded(code, line):
+            raise ValueError("%s:%d is outside the failpoint domain"
+                             % (code.co_qualname, line))
+        return _Armed(self, Shot(k, exc_class, False, code, line))
+
+    def excluded(self, code, line):
+        ex = self.domain.classify(code)
+        return ex is None or line in ex
+
+    def describe(self, code, line):
+        info = self.domain._file_info(code.co_filename)
+        return (info[0] if info else code.co_filename, code.co_qualname,
+                line)
+
     def _activate(self, shot):
         if self.tool is None:
             raise RuntimeError("failpoint session is not open")
         if self._shot is not None:
             raise RuntimeError("failpoint calls do not nest")
         self._shot = shot
-        sys.monitoring.set_events(self.tool, sys.monitoring.events.LINE)
+        mon = sys.monitoring
+        if shot.code is None:
+            mon.set_events(self.tool, mon.events.LINE)
+        else:
+            mon.set_local_events(self.tool, shot.code, mon.events.LINE)
 
     def _deactivate(self):
-        self._shot = None
-        if self.tool is not None:
-            sys.monitoring.set_events(self.tool, 0)
+        shot, self._shot = self._shot, None
+        if self.tool is not None and shot is not None:
+            if shot.code is None:
+                sys.monitoring.set_events(self.tool, 0)
+            else:
+                sys.monitoring.set_local_events(self.tool, shot.code, 0)
 
     def _on_line(self, code, line):
+        shot = self._shot
+        if shot is not None and shot.code is not None:
+            # local mode: only visits of the target location count
+            if code is shot.code and line == shot.line:
+                shot.count += 1
+                if shot.count == shot.target:
+                    self._fire(shot, code, line)
+            return None
         excluded = self.domain._codes.get(code, 0)
         if excluded == 0:
             excluded = self.domain.classify(code)
         if excluded is None or line in excluded:
             return sys.monitoring.DISABLE
-        shot = self._shot
         if shot is None:
             return None
         shot.count += 1
         if shot.trace is not None:
-            shot.trace.append((code.co_qualname, line))
+            shot.trace.append((code, line))
         if shot.count == shot.target:
-            rel = self.domain._files[code.co_filename][0]
-            shot.fired = (rel, code.co_qualname, line)
-            raise shot.exc_class("injected at %s:%d (%s), line event %d"
-                                 % (rel, line, code.co_qualname, shot.count))
+            self._fire(shot, code, line)
         return None
+
+    def _fire(self, shot, code, line):
+        shot.fired = self.describe(code, line)
+        raise shot.exc_class("injected at %s:%d (%s), visit/event %d"
+                             % (shot.fired[0], line, code.co_qualname,
+                                shot.count))
